@@ -12,6 +12,7 @@ import XrayProofs.ConvFrac
 import XrayProofs.ConvTime
 import XrayProofs.ConvStr
 import XrayProofs.ConvJson
+import XrayProofs.ConvDigits
 namespace XrayModel.C20
 open XrayGen XrayModel.Conv
 
@@ -207,6 +208,23 @@ theorem chr_rejects (i : Int) (h : i < 0 ∨ isScalar i.toNat = false) : ∃ e, 
 
 example : isScalar 0xD7FF = true ∧ isScalar 0xD800 = false ∧ isScalar 0xDFFF = false ∧ isScalar 0xE000 = true ∧
     isScalar 0x10FFFF = true ∧ isScalar 0x110000 = false := by decide
+
+/-! ### integer → digits in any base ≥ 2 (the route to text in an arbitrary base; `to_int(text, b)` is C14's `toStr_ofStr`)
+`IntB.digits` is C14's arm-for-arm mirror of the loop of `digits` in int.rs. -/
+
+/-- `digits(n, b)` succeeds for every `n` and every base `b ≥ 2`; the positional value of the digit list
+(`from_digits`, Horner) is `n` again; and the list is canonical: empty for 0, otherwise no leading zero (the most
+significant digit is non-zero) and its length `L` satisfies `b^(L-1) ≤ |n| < b^L`, i.e. `L = ⌊log_b |n|⌋ + 1` -/
+theorem digits_roundtrip_canonical (n b : LB) (hn : n.wf) (hb : b.wf) (hb2 : 2 ≤ b.den) :
+    ∃ ds, IntB.digits n b = .ints ds ∧ Digits.horner b.den (ds.map LB.den) = n.den ∧
+      (n.den = 0 → ds = []) ∧
+      (n.den ≠ 0 → (∃ d, ds.getLast? = some d ∧ d.den ≠ 0) ∧
+        b.den.natAbs ^ (ds.length - 1) ≤ n.den.natAbs ∧ n.den.natAbs < b.den.natAbs ^ ds.length) := by
+  obtain ⟨ds, h1, h2, h3, h4⟩ := digits_canon n b hn hb hb2
+  exact ⟨ds, h1, h2, fun h => h3 (by omega), fun h => h4 (by omega)⟩
+
+example : IntB.digits (LB.ofInt 7000000000000000005) (LB.ofInt 10) =
+    .ints ([LB.short 5] ++ List.replicate 17 (LB.short 0) ++ [LB.short 7]) := by decide +kernel
 
 /-! ### JSON strings -/
 
